@@ -120,6 +120,10 @@ func (f *RawMessageFilter) ConsumeCacheMessages(consensusMessagesHandler Consens
 		f.logger.Debug("LHFILTER consuming %d messages from height=%d", len(messages), height)
 	}
 	for _, message := range messages {
+		if message.BlockHeight() != f.state.Height() {
+			// handling a cached message may have committed this height and started the next term from within this loop
+			continue
+		}
 		f.processConsensusMessage(message)
 	}
 	delete(f.futureCache, height)
